@@ -207,11 +207,33 @@ func c02Stage(ctx context.Context, allowFault bool) stage {
 		// stack and slice conversions (a stack iterates newest first)
 		switch simrt.Choose(4) {
 		case 0:
+			if simrt.Choose(2) == 1 {
+				// a stack on its second cycle: filled and drained (read past
+				// its end) once before it takes the pipeline's items
+				return stage{"Stack(reused).Iterator", func(i *fun.Iterator[int]) *fun.Iterator[int] {
+					st := &dt.Stack[int]{}
+					st.Push(9)
+					st.Push(8)
+					_, _ = st.PopIterator().Slice(ctx)
+					_ = st.Populate(i).Run(ctx)
+					return st.Iterator()
+				}, rev}
+			}
 			return stage{"Stack.Iterator", func(i *fun.Iterator[int]) *fun.Iterator[int] {
 				st, _ := dt.NewStackFromIterator(ctx, i)
 				return st.Iterator()
 			}, rev}
 		case 1:
+			if simrt.Choose(2) == 1 {
+				return stage{"Stack(reused).PopIterator", func(i *fun.Iterator[int]) *fun.Iterator[int] {
+					st := &dt.Stack[int]{}
+					st.Push(9)
+					for st.Pop().Ok() {
+					}
+					_ = st.Populate(i).Run(ctx)
+					return st.PopIterator()
+				}, rev}
+			}
 			return stage{"Stack.PopIterator", func(i *fun.Iterator[int]) *fun.Iterator[int] {
 				st, _ := dt.NewStackFromIterator(ctx, i)
 				return st.PopIterator()
